@@ -5,6 +5,7 @@
     (decode (decls DECL…) "TypeName" JSON)   → (val GOVAL) | none
     (fieldName "k")                          → "K"
     (constName "Enum" "VALUE")               → "EnumValue"
+    (goTypeName "int")                       → "int_"
 
   SCHEMA := (schema "Query" MUT SUB TYPE…)   MUT, SUB := none | (some "Name")
   TYPE   := (scalar N) | (enum N (V…)) | (object N ((F T)…) (I…)) | (iface N ((F T)…)) | (union N (M…)) | (input N)
@@ -242,6 +243,7 @@ def handle (line : String) : String :=
     | _, _ => "bad-op"
   | some (.list [.atom "fieldName", .atom k]) => toString (nameS (fieldName (toName k)))
   | some (.list [.atom "constName", .atom e, .atom v]) => toString (nameS (constName (toName e) (toName v)))
+  | some (.list [.atom "goTypeName", .atom n]) => toString (nameS (goTypeName (toName n)))
   | _ => "bad-op"
 
 def main : IO Unit := lineLoopPure handle
